@@ -197,6 +197,7 @@ theorem jstep_err_poisons (db : JDb) (op : JOp) (h : (jstep db op).2 ≠ .ok) :
       · simp [jstep, he] at h
       · simp [jstep, he, hp]
     | persist m => simp [jstep, hp]
+    | rotate => simp [jstep, hp]
   · have hp' : db.poisoned = false := by simpa using hp
     cases op with
     | single pieces =>
@@ -247,6 +248,12 @@ theorem jstep_err_poisons (db : JDb) (op : JOp) (h : (jstep db op).2 ≠ .ok) :
         cases r' with
         | err => simp [jstep, hp', hq]
         | ok => simp [jstep, hp', hq] at h
+    | rotate =>
+      cases hq : db.w.persist .syncAll with
+      | mk w' r' =>
+        cases r' with
+        | err => simp [jstep, hp', hq]
+        | ok => simp [jstep, hp', hq] at h
 
 theorem jstep_poisoned (db : JDb) (op : JOp) (hp : db.poisoned = true) (he : op.isEmptyBatch = false) :
     jstep db op = (db, .poisoned) := by
@@ -257,6 +264,7 @@ theorem jstep_poisoned (db : JDb) (op : JOp) (hp : db.poisoned = true) (he : op.
     have : pieces.isEmpty = false := by simpa [JOp.isEmptyBatch] using he
     simp [jstep, hp, this]
   | persist m => simp [jstep, hp]
+  | rotate => simp [jstep, hp]
 
 theorem jrun_poisoned (db : JDb) (ops : List JOp) (hp : db.poisoned = true) :
     ∀ i (hi : i < ops.length), (ops[i]).isEmptyBatch = false →
@@ -275,6 +283,7 @@ theorem jrun_poisoned (db : JDb) (ops : List JOp) (hp : db.poisoned = true) :
         | single _ => simp [JOp.isEmptyBatch] at heo
         | clear _ => simp [JOp.isEmptyBatch] at heo
         | persist _ => simp [JOp.isEmptyBatch] at heo
+        | rotate => simp [JOp.isEmptyBatch] at heo
     cases i with
     | zero =>
       simp only [List.getElem_cons_zero] at he
